@@ -17,7 +17,18 @@ Every execution is judged:
     all-high deviations for size 5) are explored exhaustively by E1 on the matching environment: no dead end,
     every path terminates inside the step cap; larger instances run the two extreme deterministic schedules
     (always-first / always-last feasible action) under a step cap and the environment's own
-    check_solution_validity where it has one.
+    check_solution_validity where it has one.  An exception raised by env.reset / env.step on a generated
+    instance is reported as env_crash:<Exc>.
+
+Reporting rules
+  * a finding is attributed to the smallest set of deviation patterns under which it was seen (what already
+    happens on the default draw is not reported again under deviations);
+  * the constant / alternating answer patterns of a *coordinate* draw make all locations of an instance
+    coincide (a probability-zero instance: divisions by the distance to the depot / by the spread of the points
+    give NaN).  Findings on such pattern-made instances are recorded as informational 'degenerate' notes and
+    counted in `degenerate_findings`, not reported as violations; the same finding on the default draw of a
+    configuration (e.g. loc_distribution='center') IS a violation;
+  * docstrings that are stale with respect to the emitted format (see DOC_NOTES) are informational.
 """
 from __future__ import annotations
 
@@ -223,7 +234,7 @@ def _range(j, t, lo, hi, field, tol=1e-6, strict=True, what=""):
         if strict:
             j.v(f"range:{field}", msg)
         else:
-            j.n(msg + " (informational: unbounded distribution)")
+            j.n(f"{field}: a normal / gaussian sampler draws values outside [min, max] (informational: the distribution is unbounded and no clamping is documented)")
         return False
     return True
 
@@ -905,7 +916,7 @@ def grid(tier):
         else:
             ns = [3, 4, 5, 10, 20, 50] if pr in ("all", "single_feat", "single_feat_otw", None, "ovrpbltw", "vrptw") else [4, 5, 20]
         for n in ns:
-            add("mtvrp", dict(num_loc=n, **base), [[2]] if (q and pr not in ("all", None)) else None)
+            add("mtvrp", dict(num_loc=n, **base), ([[2]] if pr not in ("all", None) else [1] if n >= 20 else None) if q else None)
     # --- fjsp
     shapes = [(2, 2, 1, 2, 1, None), (2, 2, 2, 2, 1, 1), (3, 2, 1, 2, 1, 2), (3, 3, 2, 2, 2, 3), (5, 3, 2, 3, 1, None), (10, 5, 4, 6, 1, None), (10, 5, 4, 6, 2, 3)]
     if q:
@@ -914,7 +925,7 @@ def grid(tier):
         cfg = dict(num_jobs=J, num_machines=M, min_ops_per_job=a, max_ops_per_job=b, min_eligible_ma_per_op=e1)
         if e2 is not None:
             cfg["max_eligible_ma_per_op"] = e2
-        add("fjsp", cfg)
+        add("fjsp", cfg, [1] if (q and J >= 10) else None)
     add("fjsp", dict(num_jobs=3, num_machines=2, min_ops_per_job=1, max_ops_per_job=2, same_mean_per_op=False), [[2]])
     # --- jssp
     for J, M in ([(2, 2), (3, 3), (6, 6)] if q else [(2, 2), (3, 2), (3, 3), (6, 6), (10, 5)]):
@@ -924,7 +935,7 @@ def grid(tier):
         add("jssp", dict(num_jobs=4, num_machines=3, min_ops_per_job=2, max_ops_per_job=3, one2one_ma_map=False))
     # --- ffsp
     for S, M, J in ([(2, 2, 3), (2, 3, 4), (3, 4, 20)] if q else [(2, 2, 2), (2, 2, 3), (2, 3, 4), (3, 2, 3), (2, 3, 10), (3, 4, 20)]):
-        add("ffsp", dict(num_stage=S, num_machine=M, num_job=J))
+        add("ffsp", dict(num_stage=S, num_machine=M, num_job=J), [1] if (q and J >= 20) else None)
     add("ffsp", dict(num_stage=2, num_machine=2, num_job=3, flatten_stages=False), [[2]])
     add("ffsp", dict(num_stage=2, num_machine=2, num_job=3, min_time=1, max_time=3), [[2]])
     # --- smtwtp
@@ -1076,12 +1087,6 @@ def degenerate(td):
     return bool(((spread == 0) | ~torch.isfinite(spread)).any())
 
 
-def _squash(m):
-    import re
-
-    return re.sub(r"\d+(\.\d+)?(e[+-]?\d+)?", "#", m)
-
-
 def fingerprint(td):
     acc = []
     for k in sorted(td.keys()):
@@ -1150,6 +1155,11 @@ class Runner:
         return out
 
 
+def trigger_names(points):
+    t = trigger_of(points)
+    return frozenset() if t == "default_draw" else frozenset(t.split("+"))
+
+
 def run_config(p, item, max_dev, seed):
     R = Runner(item["gen"], item["cfg"], item["B"])
     head = f"{R.gen}[{R.label}] n={R.g.size(R.cfg) if R.ctor_error is None else '?'} B={R.B}"
@@ -1161,27 +1171,19 @@ def run_config(p, item, max_dev, seed):
         return
     stats = dict(traces=0, env_states=0, budget_capped=0)
     n_exec = 0
-    seen = {}
-    default_obs = set()
+    buf = []  # (observable, trigger names, choices, message, extra replay fields)
     try:
         for choices, (res, esc), seam in explore18(lambda s: execute(R.obj, R.B, s, seed), max_dev=max_dev, seed=seed):
             n_exec += 1
             p.add(states=1, transitions=len(seam.points), distinct_count=1)
-            trig = trigger_of(seam.points)
+            names = trigger_names(seam.points)
             for what in esc:
                 p.note(f"harness: a draw from the {what} escaped the seam in {R.gen}[{R.label}] (seam calls: {sorted(set(seam.calls))})")
             if isinstance(res, Exception):
                 p.add(evaluations=1)
-                p.outcome(f"{R.gen}|{R.label}|crash:{type(res).__name__}")
                 obs = f"crash:{type(res).__name__}"
-                if n_exec == 1:
-                    default_obs = {obs}
-                key = (obs, "default_draw" if obs in default_obs else trig)
-                seen[key] = seen.get(key, 0) + 1
-                if seen[key] <= 2:
-                    p.violation(R.sig(key[0], key[1]), R.rec(choices, seed, stage="_generate"), f"{head} choices={choices}: generator raised {type(res).__name__}: {str(res)[:200]}")
-                else:
-                    p.add(violations_raw=1)
+                p.outcome(f"{R.gen}|{R.label}|{obs}")
+                buf.append((obs, names, choices, f"generator raised {type(res).__name__}: {str(res)[:200]}", dict(stage="_generate")))
                 continue
             td = res
             p.add(evaluations=bnum(R.B))
@@ -1199,28 +1201,33 @@ def run_config(p, item, max_dev, seed):
                 for m in getattr(R, "env_errors", []):
                     p.note(f"harness: {R.gen}[{R.label}]: {m}")
             p.outcome(f"{R.gen}|{R.label}|{jhash(fingerprint(td))}|{'ok' if not found else found[0][0]}")
-            if found and trig != "default_draw" and degenerate(td):
+            if found and names and degenerate(td):
                 # pattern-made instance whose locations all coincide: recorded, not counted as a violation
                 p.add(degenerate_findings=len(found))
                 for o, m, _ in found:
-                    p.note(f"degenerate: {R.gen}: '{o}' when ALL locations of an instance coincide (only reachable through the constant / alternating coordinate patterns, probability zero; not counted): {_squash(m)[:120]}")
+                    p.note(f"degenerate: {R.gen}: '{o}' when ALL locations of an instance coincide (only reachable through the constant / alternating answer patterns of a coordinate draw, probability zero; recorded, not counted as a violation)")
                 continue
-            if n_exec == 1:
-                default_obs = {o for o, _, _ in found}
             for o, m, extra in found:
-                if o in default_obs:
-                    trig_o = "default_draw"  # also present without any deviation: the deviation is not the trigger
-                else:
-                    trig_o = trig
-                key = (o, trig_o)
-                seen[key] = seen.get(key, 0) + 1
-                if seen[key] <= 2:
-                    p.violation(R.sig(o, trig_o), R.rec(choices, seed, **extra), f"{head} choices={choices}: {m}")
-                else:
-                    p.add(violations_raw=1)
+                buf.append((o, names, choices, m, extra))
     except ExplorationCapped:
         p.add(caps_hit=1)
         p.note(f"harness: choice exploration of {head} capped")
+    # a finding is attributed to the smallest set of deviation patterns under which it was seen: what already
+    # happens on the default draw (or under one deviation) is not reported again for its supersets
+    by_obs = {}
+    for b in buf:
+        by_obs.setdefault(b[0], []).append(b)
+    for obs, lst in by_obs.items():
+        sets = {b[1] for b in lst}
+        minimal = {s_ for s_ in sets if not any(t < s_ for t in sets)}
+        emitted = {}
+        for o, names, choices, m, extra in sorted(lst, key=lambda b: (n_deviations(b[2]), len(b[2]))):  # smallest script first
+            trig = "+".join(sorted(names)) if names else "default_draw"
+            if names in minimal and emitted.get(trig, 0) < 2:
+                emitted[trig] = emitted.get(trig, 0) + 1
+                p.violation(R.sig(o, trig), R.rec(choices, seed, **extra), f"{head} choices={choices}: {m}")
+            else:
+                p.add(violations_raw=1)
     p.add(traces_validated_against_impl=stats["traces"], env_states=stats["env_states"], configs=1)
     if stats["budget_capped"]:
         p.note(f"harness: {stats['budget_capped']} exhaustive exploration(s) of {head} exceeded {MAX_STATES} states; the two extreme schedules were run instead")
@@ -1327,6 +1334,8 @@ def main(tier):
         "truncation of CVRPTW window starts to integers is by design: start >= floor(distance from depot) is demanded, not start >= distance",
         "solvability: exhaustive for size <= 5 (all executions for size <= 4; default + single all-low / all-high deviations otherwise), two extreme schedules + the environment's checker above; MDCPDP only with one depot (multi-depot is a recorded known finding); FFSP step cap = machines x (serial makespan + 1) + operations because waiting steps scale with processing times; other caps 4n+10",
         "DPP / MDPP generators need chip data files that are not available offline: skipped",
+        "instances whose locations ALL coincide because a coordinate draw was answered with a constant / alternating pattern are probability-zero artefacts of the answer alphabet: findings on them are informational (degenerate_findings), not violations",
+        "capacity overrides below max_demand, MTSP with more agents than customers and similar self-contradictory parameterisations are not part of the grid (no documentation declares them valid)",
     ]
     seed = seed_from_env()
     units = make_units(tier, seed)
@@ -1355,4 +1364,6 @@ def replay(rec):
     found += [(o, m) for o, m, _ in R.solv(res, seam.points, stats, force=True)]
     hit = [f for f in found if want is None or f[0] == want]
     text = f"{rec['generator']}({rec['config']})({rec['batch']}) choices={rec['choices']} seed={rec['seed']}: findings={found if found else 'none'}"
+    if hit and trigger_names(seam.points) and degenerate(res):
+        return False, text + " -- but all locations of the instance coincide (pattern-made, probability-zero instance): not counted"
     return bool(hit), text
